@@ -99,3 +99,17 @@ CLAIMED["C20"] = (
     _TRUST + " TOP is judged on framing, identity and prefix-of-message only (the property does not fix its exact line count).",
     "DESIGN.md section 4 C20",
 )
+CLAIMED["C08"] = (
+    "exploration",
+    "property-based testing + bounded enumeration + coverage-guided fuzzing: Hypothesis grammar generator producing (sentence, denoted AST) pairs for every command, junk/invalid-by-construction/mutation/token-soup generators for totality, exhaustive enumerations of name spellings, fetch sections, search key pairs, store forms and dates, and (thorough) atheris/libFuzzer campaigns on IMAPClientCommand.parse(); oracle = independent expected AST, full consumption, only-BadCommand-escapes",
+    "Grammar-directed generation compares every parsed field with an AST built alongside the sentence (mailbox names with escapes decoded and exact-INBOX mapping, sets, flags, dates as instants, literal bytes, fetch sections/partials/peek, search trees with RFC desugarings, LIST-EXTENDED options); mutations, truncations and fuzzing check totality (only BadCommand may escape). One open known finding: trailing text after a complete command is accepted.",
+    "Trusted: the expected-AST builder in vf/gen/c08_grammar.py (written from RFC 3501/4315/5258/5819/6851 grammar), CPython. parse() is called in-process; accepted mutants are not judged.",
+    "DESIGN.md section 4 C08",
+)
+CLAIMED["C14"] = (
+    "exploration",
+    "property-based testing + bounded enumeration: Hypothesis-generated mailboxes and search programs (nested NOT/OR/lists, every key, seq/UID sets, SEARCH and UID SEARCH); oracle = independent three-valued evaluator over FETCH read-back and planted tokens, plus metamorphic Boolean laws on arbitrary programs; exhaustive pairwise combination of an 18-key basis on a fixed mailbox",
+    "Every generated program is judged by an evaluator written without asimap (flags vs FETCH FLAGS, sizes vs RFC822.SIZE, dates vs INTERNALDATE/Date header where unambiguous, planted/absent tokens) and by the laws NOT p = ALL - p, OR = union, juxtaposition = list = intersection, NEW/OLD/UN* definitions, UID SEARCH = SEARCH mapped through the UID table, ascending duplicate-free results.",
+    _TRUST + " 7-bit messages only; keys whose truth is ambiguous under RFC 3501 (date boundaries across zones, BODY over MIME headers, keyword case) are not asserted.",
+    "DESIGN.md section 4 C14",
+)
